@@ -105,8 +105,10 @@ var checks = map[string]*check{
 	},
 	"C03": {
 		id: "C03", models: []model{mcSum}, trace: "Trace_Core", batch: 4,
-		gen:         func(g *gen.G, thor bool) []gen.Program { return gen.FMA(g, n(thor, 1500, 40000)) },
-		rule:        "FMA calls: random triples, targeted exact sums x*y+u with delicate digits after the precision, massive cancellation (u = -(x*y) +- 1 ulp), u far above/below the product, products whose exponent leaves int32 while the sum stays inside, zero/infinite operands; x 6 modes x aliasing partitions of (z,x,y,u) x receiver histories; distinct by specification branch cell; the trace spec also classifies each finite case as same-as / differs-from Mul-then-Add",
+		gen: func(g *gen.G, thor bool) []gen.Program {
+			return append(gen.FMA(g, n(thor, 1500, 40000)), gen.Ctx(g, n(thor, 10, 100), 150)...)
+		},
+		rule:        "context sessions (FMA through package context into receivers whose precision and mode differ from the context's); exactly zero sums of a zero product and a zero addend x 6 modes x signs x every receiver; FMA calls: random triples, targeted exact sums x*y+u with delicate digits after the precision, massive cancellation (u = -(x*y) +- 1 ulp), u far above/below the product, products whose exponent leaves int32 while the sum stays inside, zero/infinite operands; x 6 modes x aliasing partitions of (z,x,y,u) x receiver histories; distinct by specification branch cell; the trace spec also classifies each finite case as same-as / differs-from Mul-then-Add",
 		assumptions: commonAssumptions,
 		req:         []string{"FMA:differs-from-mul-add", "FMA:same-as-mul-add", "FMA:tie-up", "FMA:tie-down", "FMA:fits", "FMA:special"},
 	},
